@@ -534,7 +534,7 @@ fn run(ctx: &mut Ctx) {
 
 fn finish(m: &Merged, tier: Tier) -> Finish {
     let mut f = Finish {
-        rule: "histories of builder calls (with_rule / with_rules / with_function / with_functions / with_symbol / with_symbols) are replayed against a fresh builder and a 40-line model (ordered accepted rule names, set of accepted function names, last-writer-wins symbol map; function names must be `_`|XID_start then XID_continue* and not one of the 38 reserved words); every refusal must name the first offending element; every ruleset that gets built is probed: outcome names in order, every function name of the pool called through a probe rule (a Tag function returns its own name), every symbol read. Plus ~3,000 candidate function names (all 1-2 character strings over a 42-symbol alphabet, reserved words +- one character, near-identifiers) through with_function and with_functions. Every case is non-trivial; distinct by history / name".into(),
+        rule: "histories of builder calls (with_rule / with_rules / with_function / with_functions / with_symbol / with_symbols) are replayed against a fresh builder and a 40-line model (ordered accepted rule names, set of accepted function names, last-writer-wins symbol map; function names must be `_`|XID_start then XID_continue* and not one of the 38 reserved words); every refusal must name the first offending element; every ruleset that gets built is probed: outcome names in order, every function name of the pool called through a probe rule (a Tag function returns its own name), every symbol read (symbol values of every kind, incl. none / false / 0 / empty string / empty collections). Batches of 257-4000 shuffled names through with_rules / with_functions / with_symbols. Plus ~3,000 candidate function names (all 1-2 character strings over a 42-symbol alphabet, reserved words +- one character, near-identifiers) through with_function and with_functions. Every case is non-trivial; distinct by history / name".into(),
         exhaustive: true,
         exhaustive_part: format!("all histories of length <= {} over a 15-call alphabet; all candidate names", tier.of(4, 5)),
         ..Default::default()
